@@ -35,8 +35,8 @@ MC_AlphaQuick == {
     CFE("",  FALSE, "",  "A", "", FALSE),
     CFE("-", TRUE,  "-", "B", D1, TRUE),
     EX("A", "S"), EX("A*B", "S"), EX("A", "T"), EX("A", "O"),
-    AV("A", ""), AV("A", "0.0"), AV("A", D2), AV("B", D1),
-    SR("A", D1), SR("A", "0.0"), SR("B", "") }
+    AV("A", ""), AV("A", "0.0"), AV("A", D3), AV("B", D4),        \* D3, D4, D5 begin like a zero literal
+    SR("A", D5), SR("A", "0.0"), SR("B", "") }
 
 (* the five sign / bracket spellings of the statement, and the bare name *)
 Form(s1, br, s2) == [s1 |-> s1, br |-> br, s2 |-> s2]
@@ -45,15 +45,18 @@ FInner == Form("", TRUE, "-")     FOuter == Form("-", TRUE, "")     FBoth  == Fo
 Forms6 == {FPlain, FPlus, FMinus, FInner, FOuter, FBoth}
 Forms4 == {FPlus, FMinus, FInner, FBoth}
 
-(* thorough, length 3: 53 actions *)
+(* thorough, length 3: 54 actions *)
 MC_AlphaMid ==
-    { CF(f.s1, f.br, f.s2, b, i) : f \in Forms4, b \in {"A", "A/B"}, i \in BOOLEAN }
+    { CF(f.s1, f.br, f.s2, "A", i) : f \in Forms4, i \in BOOLEAN }
+    \cup { CF(f.s1, f.br, f.s2, "A/B", i) : f \in {FPlus, FMinus}, i \in BOOLEAN }
+    \cup { CF("-", TRUE, "-", "A/B", FALSE) }
     \cup { CF(f.s1, f.br, f.s2, b, TRUE) : f \in {FPlus, FMinus}, b \in {"B", "A*B", "B*A", "B/A"} }
     \cup { CF("-", TRUE, "-", b, FALSE) : b \in {"B/A", "A*B"} }
-    \cup { CFE(f.s1, f.br, f.s2, "A", q, i) : f \in {FPlus, FMinus}, q \in {D1, D2}, i \in BOOLEAN }
+    \cup { CFE(f.s1, f.br, f.s2, "A", q, TRUE) : f \in {FPlus, FMinus}, q \in {D1, D2} }
+    \cup { CFE("+", FALSE, "", "A", D1, FALSE), CFE("+", FALSE, "", "A", D3, TRUE) }
     \cup { CFE("", FALSE, "", "A", "", FALSE), CFE("", FALSE, "", "B", D1, TRUE), CFE("-", TRUE, "-", "B", "", TRUE) }
-    \cup { AV("A", q) : q \in Eqns } \cup { AV("B", D1) }
-    \cup { SR("A", D1), SR("A", "0.0"), SR("A", ""), SR("B", D2) }
+    \cup { AV("A", q) : q \in Eqns } \cup { AV("B", D4) }
+    \cup { SR("A", D1), SR("A", D3), SR("A", "0.0"), SR("A", ""), SR("B", D2) }
     \cup { EX("A", "S"), EX("A*B", "S"), EX("A/B", "S"), EX("B/A", "S"), EX("A", "T"), EX("A/B", "T"), EX("A", "O") }
 
 (* thorough, length 4: 20 actions *)
@@ -63,12 +66,14 @@ MC_AlphaLen4 == {
     CF("+", FALSE, "",  "A/B", TRUE),  CF("-", TRUE,  "",  "B/A", TRUE),  CF("",  TRUE,  "-", "A/B", FALSE),
     CFE("+", FALSE, "", "A", D1, TRUE), CFE("-", FALSE, "", "A", D2, TRUE), CFE("", FALSE, "", "A", "", FALSE),
     EX("A", "S"), EX("A/B", "S"), EX("A", "T"),
-    AV("A", ""), AV("A", D2), AV("B", D1), SR("A", D1), SR("A", "0.0") }
+    AV("A", ""), AV("A", D3), AV("A", D5), SR("A", D1), SR("A", "0.0") }
 
-(* thorough, length 2: every action of the instance (all six spellings, all six bodies) *)
+(* thorough, length 2: every action of the instance (all six spellings, all six bodies,  *)
+(* all nine right-hand-side texts for AddVariable / SetRHS)                              *)
 MC_AlphaFull ==
     { CF(f.s1, f.br, f.s2, b, i) : f \in Forms6, b \in Bodies, i \in BOOLEAN }
     \cup { CFE(f.s1, f.br, f.s2, n, q, i) : f \in Forms6, n \in FlowNames, q \in {"", D1, D2}, i \in BOOLEAN }
+    \cup { CFE(f.s1, f.br, f.s2, n, D3, i) : f \in {FPlus, FMinus}, n \in FlowNames, i \in BOOLEAN }
     \cup { AV(n, q) : n \in FlowNames, q \in Eqns }
     \cup { SR(n, q) : n \in FlowNames, q \in Eqns }
     \cup { EX(b, w) : b \in Bodies, w \in Sectors }
